@@ -118,11 +118,10 @@ def _value_of(expr: Expr) -> Number | None:
     """Compute a numerical value of an expression, return None if it's not possible."""
     try:
         value = N(expr).round(n=NUM_DIGITS_PRECISION)
-    except TypeError as e:
-        if str(e) == "Cannot round symbolic expression":
-            return None
-        else:
-            raise e
+    except TypeError:
+        # Raised, with various messages, whenever the expression has no numerical value yet
+        # (free symbols, unevaluated sums or products with symbolic limits, ...).
+        return None
 
     # Map to integer if possible
     if int(value) == value or value.is_Float and value % 1 == 0:
